@@ -9,6 +9,9 @@ package gogen
 import (
 	"bytes"
 	"fmt"
+	"go/ast"
+	"go/importer"
+	"go/parser"
 	"go/token"
 	"go/types"
 	"strings"
@@ -127,4 +130,75 @@ func VerifH_C14_contexts() {
 	ok, msg := verifGoAccepts("\n" + text[i:] + "\n")
 	vp.Observe("gotypes", msg)
 	vp.Assert("C01,C14.contexts.typechecks", ok)
+}
+
+// Instantiated generic types: the zero value of G[args] must mention the type arguments, not the
+// type parameters of the generic declaration; checked directly and through ReturnErr padding.
+const verifGenericZeroExtra = verifGenericExtra + `
+type G4[T any] [2]T
+type G5[T any] struct{ A, B T }
+type G6[T any] *T
+type G7[T any] int
+`
+
+func VerifH_C14_generics() {
+	upkg, _ := verifUniverse(verifGenericZeroExtra)
+	conf := &Config{Types: upkg, Importer: verifImporter{}, HandleErr: func(err error) { panic(err) }}
+	pkg := NewPackage("", "u", conf)
+	args := []types.Type{types.Typ[types.Int], types.Typ[types.String], upkg.Scope().Lookup("NSt").Type(), types.NewSlice(types.Typ[types.Bool])}
+	gens := []string{"G1", "G2", "G3", "G4", "G5", "G6", "G7"}
+	gname := gens[vp.Choose("generic", len(gens))]
+	g := upkg.Scope().Lookup(gname).Type().(*types.Named)
+	var targs []types.Type
+	for i := 0; i < g.TypeParams().Len(); i++ {
+		k := len(args)
+		if gname == "G2" && i == 0 {
+			k = 2 // comparable key
+		}
+		targs = append(targs, args[vp.Choose("a"+string(rune('0'+i)), k)])
+	}
+	T, err := types.Instantiate(nil, g, targs, true)
+	vp.Assume(err == nil)
+	how := vp.Choose("how", 3)
+	var text string
+	var e *Element
+	class := vp.Try(func() {
+		switch how {
+		case 0:
+			e = pkg.Zero(T)
+			text = "var t_zz_g " + verifExprText(&Element{Val: TypeAST(pkg, T)}) + " = " + verifExprText(e)
+		case 1:
+			e = pkg.CB().ZeroLit(T).InternalStack().Pop()
+			text = "var t_zz_g " + verifExprText(&Element{Val: TypeAST(pkg, T)}) + " = " + verifExprText(e)
+		case 2: // error-return padding
+			res := types.NewTuple(types.NewParam(token.NoPos, upkg, "", T), types.NewParam(token.NoPos, upkg, "", TyError))
+			cb := pkg.NewFunc(nil, "zz_f", nil, res, false).BodyStart(pkg)
+			cb.Val(verifNonConst("t_err", TyError)).ReturnErr(false).End()
+			var out bytes.Buffer
+			if err := WriteTo(&out, pkg); err != nil {
+				panic(err)
+			}
+			s := out.String()
+			text = s[strings.Index(s, "func "):]
+		}
+	})
+	vp.Assert("C17.c14.generics.nofault", class != vp.FaultPanic)
+	vp.Assert("C14.generics.accepted", class == vp.NoPanic)
+	if class != vp.NoPanic {
+		return
+	}
+	vp.Observe("text", text)
+	if e != nil {
+		vp.Assert("C14.generics.reported", types.Identical(e.Type, T))
+	}
+	fset := token.NewFileSet()
+	f, perr := parser.ParseFile(fset, "u.go", verifUniverseSrc+verifGenericZeroExtra+"\n"+text+"\n", 0)
+	ok := perr == nil
+	if ok {
+		bad := false
+		tc := types.Config{Importer: importer.Default(), Error: func(error) { bad = true }}
+		tc.Check("example.com/u", fset, []*ast.File{f}, nil)
+		ok = !bad
+	}
+	vp.Assert("C01,C14.generics.typechecks", ok)
 }
